@@ -291,12 +291,19 @@ inline Config genConfig(const Profile &pf) {
   for (char b : builtinShortKeys(c.flags)) usedShort.insert(b);
   for (auto &b : builtinLongKeys(c.flags)) usedLong.insert(b);
   // value constraints need two same-typed arguments: force such pairs now and then
-  int forcePair = -1;
-  if (pf.handlerConstraints && pf.onlyKind < 0) { int r = *range<int>(0, 99); if (r < 12) forcePair = pick(50) ? K_INT : K_STRING; else if (r < 22) forcePair = K_VEC_INT; if (forcePair >= 0 && n < 2) n = 2; }
+  int forcePair = -1, forceCount = 2;
+  std::set<int> forcedArgs;
+  if (pf.handlerConstraints && pf.onlyKind < 0) {
+    int r = *range<int>(0, 99);
+    if (r < 12) { forcePair = pick(50) ? K_INT : K_STRING; forceCount = *range<int>(2, 4); }   // differ over 2..4 arguments
+    else if (r < 22) forcePair = K_VEC_INT;
+    if (forcePair >= 0 && n < forceCount) n = forceCount;
+  }
   for (int i = 0; i < n; ++i) {
     // pick a kind, then a free slot of that kind
     int kind = oneOf(kinds);
-    if (forcePair >= 0 && i < 2) kind = forcePair;
+    const bool forced = forcePair >= 0 && i < forceCount;   // reserved for the value constraint: kept optional, visible, unrelated
+    if (forced) kind = forcePair;
     else
     if (pf.onlyKind < 0 && pf.flagsArgs && pf.scalars && pick(45)) kind = pick(35) ? K_FLAG : oneOf(std::vector<int>{K_INT, K_STRING, K_INT, K_STRING, K_LONG, K_UINT, K_DOUBLE, K_OPT_INT, K_OPT_STRING});
     int slot = -1;
@@ -323,7 +330,7 @@ inline Config genConfig(const Profile &pf) {
     // attributes
     if (isContainer(kind)) genContainerOptions(a, kind, pf);
     if (a.spec == "-") a.multiValue = false;
-    if (pf.mandatory && kind != K_FLAG && pick(25)) a.mandatory = true;
+    if (pf.mandatory && kind != K_FLAG && !forced && pick(25)) a.mandatory = true;
     if (pf.checks && kind != K_FLAG && kind != K_DOUBLE && !isKeyValue(kind) && kind != K_TUPLE_ISI && pick(55)) genChecks(a, kind);
     if (pf.formats && (kind == K_STRING || kind == K_OPT_STRING || kind == K_VEC_STRING) && !findCheck(a, CH_PATTERN) && !findCheck(a, CH_VALUES) && pick(40)) a.format = pick(50) ? 1 : 2;
     if (pf.formats && (kind == K_VEC_STRING || kind == K_TUPLE_ISI) && !findCheck(a, CH_PATTERN) && !findCheck(a, CH_VALUES) && pick(45)) {
@@ -349,6 +356,7 @@ inline Config genConfig(const Profile &pf) {
         else { a.cardKind = CARD_MAX; a.cardA = *range<int>(1, 3); }
       }
     }
+    if (forced) forcedArgs.insert(static_cast<int>(c.args.size()));
     c.args.push_back(a);
   }
   // initial contents
@@ -365,9 +373,10 @@ inline Config genConfig(const Profile &pf) {
     }
   // inert extras: hidden / deprecated arguments that are never used on a valid line
   if (pf.inertExtras)
-    for (auto &a : c.args) {
+    for (size_t i = 0; i < c.args.size(); ++i) {
+      auto &a = c.args[i];
       if (pick(15)) a.hidden = true;
-      if (!a.mandatory && pick(12)) { a.deprecated = true; if (pick(50)) a.replacedBy = "--something-else"; }
+      if (!a.mandatory && !forcedArgs.count(static_cast<int>(i)) && pick(12)) { a.deprecated = true; if (pick(50)) a.replacedBy = "--something-else"; }
     }
   // argument constraints (requires / excludes). Targets may be shared between several constraining arguments and an
   // argument may be source and target; 'requires' edges only go from a lower to a higher argument index (no cycles).
@@ -377,7 +386,7 @@ inline Config genConfig(const Profile &pf) {
   if (pf.argConstraints) {
     int tries = *range<int>(0, 4);
     std::vector<int> cand;
-    for (size_t i = 0; i < c.args.size(); ++i) if (!c.args[i].deprecated && !c.args[i].mandatory) cand.push_back(static_cast<int>(i));
+    for (size_t i = 0; i < c.args.size(); ++i) if (!c.args[i].deprecated && !c.args[i].mandatory && !forcedArgs.count(static_cast<int>(i))) cand.push_back(static_cast<int>(i));
     for (int t = 0; t < tries && cand.size() >= 2; ++t) {
       int x = oneOf(cand);
       // prefer a target that is already in a relation: shared targets are where the bookkeeping gets interesting
@@ -411,6 +420,8 @@ inline Config genConfig(const Profile &pf) {
         std::map<int, std::vector<int>> byKind;
         for (int i : fa) { int k = sk[c.args[i].slot]; if (k == K_INT || k == K_STRING || k == K_LONG || k == K_UINT) byKind[k].push_back(i); }
         for (auto &bk : byKind) if (bk.second.size() >= 2 && hc.args.empty()) hc.args = bk.second;
+        // the order in the constraint's list is independent of the definition order
+        for (size_t j = hc.args.size(); j > 1; --j) std::swap(hc.args[j - 1], hc.args[*range<size_t>(0, j - 1)]);
       } else if (type == HC_DISJOINT) {
         std::vector<int> v;
         for (int i : fa) if (sk[c.args[i].slot] == K_VEC_INT) v.push_back(i);
@@ -574,6 +585,16 @@ inline Line genValidLine(const Config &c, const Profile &pf, int maxUses = 6) {
         // distinct values by construction
         if (kind == K_STRING) t = std::string("v") + std::to_string(differSalt[ai]) + genString(0, 3, "abc");
         else t = std::to_string(100 + differSalt[ai] * 7 + *range<int>(0, 6));
+        // an argument of the constraint that is NOT used has no value: taking exactly its initial content is legal
+        for (auto &hc : c.hcs) {
+          if (hc.type != HC_DIFFER || std::find(hc.args.begin(), hc.args.end(), ai) == hc.args.end()) continue;
+          std::vector<int> unusedOthers;
+          for (int o : hc.args) if (o != ai && !used[o]) unusedOthers.push_back(o);
+          if (!unusedOthers.empty() && pick(40)) {
+            const Val &iv = c.initial.at(c.args[oneOf(unusedOthers)].slot);
+            if (kind == K_STRING ? !iv.s.empty() : true) t = iv.s;
+          }
+        }
       }
       if (a.spec == "-" && (t.empty() || needsAttach(t))) t = kind == K_STRING ? "p" + t.substr(t.empty() ? 0 : 1) : std::to_string(*range<int>(0, 99));
       u.elems = {t};
